@@ -91,6 +91,16 @@ CHECKS["C03"] = dict(
     category="fault_enumeration",
 )
 
+CHECKS["C16"] = dict(
+    technique="bounded-exhaustive and Hypothesis-random control-flow shapes executed under all valuations of their unknown conditions (trace + outcome differential) before and after the dead-code rules",
+    text="Statement shapes over constant and unknown conditions/iterables with an observable emit at every leaf and pointless-looking expression "
+         "statements hiding calls are wrapped in def f(c0, c1, xs) and run under all 12 valuations; the emitted trace and the outcome must be identical "
+         "after delete_unreachable_code, delete_pointless_statements, remove_dead_ifs, remove_redundant_else, swap_if_else, breakout_common_code_in_ifs, "
+         "early_return, early_continue, move_before_loop and format_code.",
+    note="Each table is computed in a forked child that is killed on expiry (a transformed program may swallow the fuel exception); expression statements that may raise without a call are not generated.",
+    design="5/C16",
+)
+
 NOT_YET = {}
 
 
